@@ -71,7 +71,9 @@ pub fn run_stripe(cycles: usize, stripe: usize, stripes: usize, retire_min: usiz
             // C06: never reissued
             if !seen.insert(id) {
                 let first = res.ids.iter().position(|x| *x == id).unwrap_or(0);
-                res.failures.push((c, fail(C06, "fresh-id", "id-reissued",
+                // (C07 too: a slot whose generations are used up is retired *for good*; an id can only come
+                // back when such a slot is handed out again with its generations restarted)
+                res.failures.push((c, fail(C06 | C07, "fresh-id", "id-reissued",
                     format!("cycle {c}: new_node returned {} which was already issued in cycle {first}", fmt_id(Some(id))))));
             }
             res.ids.push(id);
@@ -475,9 +477,18 @@ pub fn run_batch_stripe(cycles: usize, slots: usize, stripe: usize, stripes: usi
         for c in 0..cycles {
             let mut batch = Vec::new();
             for _ in 0..slots {
+                let before = arena.count();
                 let id = arena.new_node(Payload(0));
+                // C07: the arena stays as long as it was (a removed slot was recycled) or grows by exactly
+                // the slot handed out — also when the slots at its end have been retired
+                let (after, slot) = (arena.count(), slot_of(id));
+                if !((after == before && slot < before) || (after == before + 1 && slot == before)) {
+                    res.failures.push((c, fail(C07, "slot-rule", "count-rule",
+                        format!("cycle {c} of (new_node x{slots}; remove x{slots}): new_node returned slot {} and count() went {before} -> {after}", slot + 1))));
+                    return;
+                }
                 if !seen.insert(id) {
-                    res.failures.push((c, fail(C06, "fresh-id", "id-reissued",
+                    res.failures.push((c, fail(C06 | C07, "fresh-id", "id-reissued",
                         format!("cycle {c} of (new_node x{slots}; remove x{slots}): new_node returned {} which was issued before", fmt_id(Some(id))))));
                     return;
                 }
